@@ -507,6 +507,13 @@ impl Builtins {
                         let name_pos = flds_pos_list[counter].0.clone();
                         new_flds_pos_list.push((name_pos, result_pos));
                         new_fields.push((name, fval[1].clone()));
+                    } else {
+                        // Anything that is not a list used to drop the field
+                        // without a word.
+                        return Err(Error::new(
+                            "Map Functions over tuples must return a list of two items".into(),
+                            result_pos,
+                        ));
                     }
                 }
                 stack.push((Rc::new(C(Tuple(new_fields, new_flds_pos_list))), pos));
